@@ -75,6 +75,21 @@ Proof.
   - rewrite IH, <- app_assoc. simpl. rewrite andb_assoc. reflexivity.
 Qed.
 
+Definition stf_judge (links : list (option nat)) (seen : list tev) (s : nat) (x : supevt) : bool :=
+  let c := about x in
+  negb (is_terminal x) || negb (onat_eqb (nth c links None) (Some s)) || negb (post_start_ok c seen)
+  || Nat.ltb 0 (count_sup s (fun y => negb (is_terminal y) && Nat.eqb (about y) c) seen).
+
+Lemma stf_go_app links seen t e :
+  check_C04_started_first_go links seen (t ++ [e]) =
+  check_C04_started_first_go links seen t &&
+  match e with TEnter s (Sup x) => stf_judge links (seen ++ t) s x | _ => true end.
+Proof.
+  revert seen. induction t as [|y r IH]; intros seen; simpl.
+  - rewrite app_nil_r, andb_true_r. reflexivity.
+  - rewrite IH, <- app_assoc. simpl. rewrite andb_assoc. reflexivity.
+Qed.
+
 Lemma filter_len_pos {A} (p : A -> bool) l y : In y l -> p y = true -> 0 < length (filter p l).
 Proof.
   induction l as [|x t IH]; simpl; [tauto|]. intros [->|H] Hp.
@@ -92,7 +107,10 @@ Definition blocked (x : option nat) (w : world) (s : nat) : Prop :=
   | Some b => a_sig b = true \/ a_pc b = Done \/ (exists r f p, a_pc b = InCb PostStop r f p)
               \/ x = Some s
   end.
-Definition anyK (w : world) (s c : nat) : Prop := exists y, In y (K w s) /\ about y = c.
+(* s knows an ActorStarted about c (handled or queued) that no terminal event about c precedes *)
+Definition anyK (w : world) (s c : nat) : Prop :=
+  exists l1 y l2, K w s = l1 ++ y :: l2 /\ is_terminal y = false /\ about y = c
+                  /\ (forall z, In z l1 -> is_terminal z = true -> about z <> c).
 Definition termK (w : world) (s c : nat) : Prop :=
   exists y, In y (K w s) /\ is_terminal y = true /\ about y = c.
 (* the link of this actor to its supervisor has been made *)
@@ -163,13 +181,15 @@ Record UInv (tr : list tev) (x : option nat) (i : nat) (a : actor) : Prop := mkU
 Record CInv (x : option nat) (w : world) (c : nat) (a : actor) (s : nat) : Prop := mkCInv {
   CR : a_armed a = true -> linkedp a -> a_sup a = Some s \/ blocked x w s;
   CP1 : post_start_ok c (trace_of w) = true -> anyK w s c \/ blocked x w s;
-  CP2 : a_notify a = true -> a_armed a = false -> termK w s c \/ blocked x w s
+  CP2 : a_notify a = true -> a_armed a = false -> termK w s c \/ blocked x w s;
+  CP4 : termK w s c -> a_armed a = false \/ x = Some c
 }.
 
 Record TInv (links : list (option nat)) (x : option nat) (w : world) : Prop := mkTInv {
   t_links : forall c, nth c links None = link_of w c;
   t_chk1 : check_C04_terminal_first_go links [] (trace_of w) = true;
   t_chk2 : check_C03_sup_first_go links [] (trace_of w) = true;
+  t_chk3 : check_C04_started_first_go links [] (trace_of w) = true;
   t_act : forall i a, get w i = Some a -> UInv (trace_of w) x i a;
   t_cs : forall c a s, get w c = Some a -> c_link (a_cfg a) = Some s -> CInv x w c a s
 }.
@@ -224,7 +244,7 @@ Lemma tinv_emit links x x' w e :
   (forall s m, e = TEnter s (Handle m) -> x' = None /\ no_block_now x' w s) ->
   TInv links x' (emit w e).
 Proof.
-  intros [h1 h2 h3 h4 h5] Hpl Hx Hn Ha Hp Hh.
+  intros [h1 h2 h3 h3' h4 h5] Hpl Hx Hn Ha Hp Hh.
   assert (HK : forall s, K (emit w e) s = K w s) by (intros s; apply K_emit_plain; exact Hpl).
   assert (Hb : forall s, blocked x w s -> blocked x' (emit w e) s).
   { intros s B. apply (blocked_tag x x' w s Hx B). }
@@ -248,8 +268,9 @@ Proof.
       apply Nat.ltb_lt. rewrite count_sup_hl. rewrite HKs in Hy.
       apply (filter_len_pos _ _ y Hy). rewrite Ht, Hab, Nat.eqb_refl. reflexivity.
     - destruct (post_start_ok c (trace_of w)) eqn:E1; simpl; auto.
-      destruct (CP1 _ _ _ _ _ (h5 c a s Egc El) E1) as [(y & Hy & Hab)|B]; [|contradiction].
-      apply Nat.ltb_lt. rewrite count_sup_hl. rewrite HKs in Hy.
+      destruct (CP1 _ _ _ _ _ (h5 c a s Egc El) E1) as [(l1 & y & l2 & EK & _ & Hab & _)|B]; [|contradiction].
+      apply Nat.ltb_lt. rewrite count_sup_hl.
+      assert (Hy : In y (hl s (trace_of w))) by (rewrite <- HKs, EK; apply in_or_app; right; left; reflexivity).
       apply (filter_len_pos _ _ y Hy). rewrite Hab. apply Nat.eqb_refl. }
   constructor.
   - exact h1.
@@ -257,35 +278,43 @@ Proof.
     destruct e as [s c| | | | | | | | | | | |]; auto. destruct c; auto. apply (Hjudge s m eq_refl).
   - rewrite trace_of_emit, sf_go_app, h3. simpl.
     destruct e as [s c| | | | | | | | | | | |]; auto. destruct c; auto. apply (Hjudge s m eq_refl).
+  - rewrite trace_of_emit, stf_go_app, h3'. simpl.
+    destruct e as [s c| | | | | | | | | | | |]; auto. destruct c; auto. discriminate.
   - intros i a Eg. rewrite trace_of_emit. apply UInv_emit with (x := x);
       [apply h4; exact Eg|exact Hx|intros A; apply (Hn i a A Eg)|intros A; apply (Ha i a A Eg)].
-  - intros c a s Eg El. destruct (h5 c a s Eg El) as [r p1 p2].
+  - intros c a s Eg El. destruct (h5 c a s Eg El) as [r p1 p2 p4].
     constructor; unfold anyK, termK; rewrite ?HK.
     + intros A L. destruct (r A L) as [B|B]; [left; exact B|right; apply Hb; exact B].
     + rewrite trace_of_emit, pso_app. intros A. apply orb_true_iff in A as [A|A].
       * destruct (p1 A) as [B|B]; [left; exact B|right; apply Hb; exact B].
       * apply (Hp c a s A Eg El).
     + intros A D. destruct (p2 A D) as [B|B]; [left; exact B|right; apply Hb; exact B].
+    + intros T. destruct (p4 T) as [A|A]; [left; exact A|right].
+      destruct Hx as [ -> | -> ]; [exact A|discriminate].
 Qed.
 
 (* ------------------------------------------------------------------ *)
 (* silent pointwise transformations                                     *)
 
 Lemma cinv_keep x x' w w' c a a' s :
-  CInv x w c a s -> trace_of w' = trace_of w -> (forall y, In y (K w s) -> In y (K w' s)) ->
+  CInv x w c a s -> trace_of w' = trace_of w -> K w' s = K w s ->
   (blocked x w s -> blocked x' w' s) ->
   (a_armed a' = true -> a_armed a = true) -> (linkedp a' -> linkedp a) ->
   (a_armed a' = true -> linkedp a' -> a_sup a' = a_sup a \/ blocked x' w' s) ->
   (a_notify a' = true -> a_notify a = true) ->
   (a_armed a' = false -> a_armed a = false \/ termK w' s c \/ blocked x' w' s) ->
+  (x = Some c -> x' = Some c \/ a_armed a' = false) ->
   CInv x' w' c a' s.
 Proof.
-  intros [r p1 p2] Et HK Hb Ha Hl Hs Hn Hd. constructor.
+  intros [r p1 p2 p4] Et HK Hb Ha Hl Hs Hn Hd Hx. constructor; unfold anyK, termK; rewrite ?HK.
   - intros A L. destruct (Hs A L) as [E|B]; [|right; exact B]. rewrite E.
     destruct (r (Ha A) (Hl L)) as [B|B]; [left; exact B|right; apply Hb; exact B].
-  - rewrite Et. intros A. destruct (p1 A) as [(y & Hy & E)|B]; [left; exists y; auto|right; auto].
-  - intros N D. destruct (Hd D) as [D0|[B|B]]; [|left; exact B|right; exact B].
-    destruct (p2 (Hn N) D0) as [(y & Hy & T & E)|B]; [left; exists y; auto|right; auto].
+  - rewrite Et. intros A. destruct (p1 A) as [B|B]; [left; exact B|right; auto].
+  - intros N D. destruct (Hd D) as [D0|[B|B]]; [|left; unfold termK in B; rewrite HK in B; exact B|right; exact B].
+    destruct (p2 (Hn N) D0) as [B|B]; [left; exact B|right; auto].
+  - intros T. destruct (p4 T) as [A|A].
+    + left. destruct (a_armed a') eqn:E; auto. rewrite (Ha eq_refl) in A. discriminate.
+    + destruct (Hx A) as [B|B]; auto.
 Qed.
 
 Lemma K_pw_same F w w' s :
@@ -303,13 +332,14 @@ Lemma tinv_pw links x x' F w w' :
                  CInv x' w' c (F c a) s) ->
   TInv links x' w'.
 Proof.
-  intros [h1 h2 h3 h4 h5] Hpw Hf HU HC.
+  intros [h1 h2 h3 h3' h4 h5] Hpw Hf HU HC.
   pose proof (trace_of_pw _ _ _ Hpw) as Et.
   constructor.
   - intros c. rewrite h1. unfold link_of. destruct Hpw as [_ g]. rewrite g.
     destruct (get w c) as [a|] eqn:E; simpl; auto. destruct (Hf c a E) as [_ ->]. reflexivity.
   - rewrite Et. exact h2.
   - rewrite Et. exact h3.
+  - rewrite Et. exact h3'.
   - intros i a' Eg. destruct Hpw as [_ g]. rewrite g in Eg.
     destruct (get w i) as [a|] eqn:E; simpl in Eg; [|discriminate]. injection Eg as <-.
     rewrite Et. apply HU; auto.
@@ -368,7 +398,8 @@ Proof.
     + apply (UInv_retag _ x x' i j b (f a)); auto.
   - intros c b s Eb El Cb. cbv beta. destruct (Nat.eqb_spec i c) as [<-|Hne].
     + rewrite Eg in Eb. injection Eb as <-. auto.
-    + eapply cinv_keep; eauto. intros y. rewrite HK. auto.
+    + eapply cinv_keep; eauto.
+      intros E. destruct Ht as [ -> |[ -> |(-> & _ & _)]]; [left; exact E|discriminate|congruence].
 Qed.
 
 (* the commonest case: nothing the pair invariant looks at changes *)
@@ -389,8 +420,8 @@ Proof.
   { apply (K_pw_same _ w _ s (pw_upd w i f)). intros j b Eb. cbv beta.
     destruct (Nat.eqb_spec i j) as [<-|]; auto. rewrite Eg in Eb. injection Eb as <-. exact Fq. }
   eapply cinv_keep;
-    [exact Ci|reflexivity|intros y; rewrite E; auto|apply blocked_upd with (a := a); auto
-    |congruence|exact Fl|intros _ _; left; exact Fs|congruence|intros D; left; congruence].
+    [exact Ci|reflexivity|exact E|apply blocked_upd with (a := a); auto
+    |congruence|exact Fl|intros _ _; left; exact Fs|congruence|intros D; left; congruence|try (intros; discriminate); auto].
 Qed.
 
 (* ------------------------------------------------------------------ *)
@@ -420,12 +451,27 @@ Proof.
   - rewrite get_upd_other by assumption. tauto.
 Qed.
 
-Lemma tinv_push links x w s e : TInv links x w -> TInv links x (upd w s (pushq e)).
+Lemma K_push_eq w s e s' :
+  exists d, K (upd w s (pushq e)) s' = K w s' ++ d /\ (forall z, In z d -> z = e).
 Proof.
-  intros [h1 h2 h3 h4 h5]. constructor.
+  unfold K, supq_of. change (trace_of (upd w s (pushq e))) with (trace_of w).
+  destruct (Nat.eq_dec s s') as [<-|Hne].
+  - rewrite get_upd_same. destruct (get w s) as [b|]; simpl.
+    + exists [e]. rewrite app_assoc. split; [reflexivity|]. intros z [<-|[]]. reflexivity.
+    + exists []. split; [symmetry; apply app_nil_r|intros z []].
+  - rewrite get_upd_other by assumption. exists []. split; [symmetry; apply app_nil_r|intros z []].
+Qed.
+
+(* a terminal event is only ever pushed by its subject's own exit, which is in transit (tag x) *)
+Lemma tinv_push links x w s e :
+  TInv links x w -> (is_terminal e = true -> x = Some (about e)) ->
+  TInv links x (upd w s (pushq e)).
+Proof.
+  intros [h1 h2 h3 h3' h4 h5] Hterm. constructor.
   - intros c. rewrite h1. symmetry. apply link_upd_same. reflexivity.
   - exact h2.
   - exact h3.
+  - exact h3'.
   - intros i a' Eg. change (trace_of (upd w s (pushq e))) with (trace_of w).
     destruct (Nat.eq_dec s i) as [->|Hne].
     + rewrite get_upd_same in Eg. destruct (get w i) as [a|] eqn:E; simpl in Eg; [|discriminate].
@@ -439,9 +485,18 @@ Proof.
         injection Eg as <-. exists a. simpl in El. repeat split; auto.
       - rewrite get_upd_other in Eg by assumption. exists a'. repeat split; auto. }
     destruct Ec as (a & E & El0 & F1 & F2 & F3 & F4).
-    eapply cinv_keep;
-      [exact (h5 c a s' E El0)|reflexivity|intros y; apply K_push_incl|apply blocked_push
-      |congruence|exact F2|intros _ _; left; exact F3|congruence|intros D; left; congruence].
+    destruct (h5 c a s' E El0) as [r p1 p2 p4].
+    destruct (K_push_eq w s e s') as (d & EK & Hd).
+    change (trace_of (upd w s (pushq e))) with (trace_of w).
+    constructor.
+    + intros A L. rewrite F3. rewrite F1 in A. destruct (r A (F2 L)) as [B|B]; [left; exact B|right; apply blocked_push; exact B].
+    + intros A. destruct (p1 A) as [(l1 & y & l2 & E1 & Hn & Hab & Ho)|B]; [left|right; apply blocked_push; exact B].
+      exists l1, y, (l2 ++ d). rewrite EK, E1, <- app_assoc. simpl. auto.
+    + rewrite F1, F4. intros N D. destruct (p2 N D) as [(y & Hy & T & Ey)|B]; [left|right; apply blocked_push; exact B].
+      exists y. rewrite EK. split; [apply in_or_app; left; exact Hy|auto].
+    + intros (y & Hy & T & Ey). rewrite F1. rewrite EK in Hy. apply in_app_or in Hy as [Hy|Hy].
+      * apply p4. exists y. auto.
+      * rewrite (Hd y Hy) in T, Ey. right. rewrite (Hterm T), Ey. reflexivity.
 Qed.
 
 Lemma notify_cases w i a e :
@@ -459,10 +514,11 @@ Proof.
   - right. split; auto. intros s0 E. injection E as <-. rewrite Egs. exact I.
 Qed.
 
-Lemma tinv_notify links x w i e : TInv links x w -> TInv links x (notify_supervisor w i e).
+Lemma tinv_notify links x w i e :
+  TInv links x w -> (is_terminal e = true -> x = Some (about e)) -> TInv links x (notify_supervisor w i e).
 Proof.
-  intros H. destruct (get w i) as [a|] eqn:Eg.
-  - destruct (notify_cases w i a e Eg) as [(s & b & _ & _ & _ & ->)|[-> _]]; [apply tinv_push|]; exact H.
+  intros H Hterm. destruct (get w i) as [a|] eqn:Eg.
+  - destruct (notify_cases w i a e Eg) as [(s & b & _ & _ & _ & ->)|[-> _]]; [apply tinv_push|]; assumption.
   - unfold notify_supervisor. rewrite Eg. exact H.
 Qed.
 
@@ -481,6 +537,27 @@ Proof.
   - right. destruct (notify_cases w i a e Eg) as [(s0 & b & _ & _ & _ & ->)|[-> _]]; [apply blocked_push|]; exact B.
 Qed.
 
+Lemma K_push_same w s e : get w s <> None -> K (upd w s (pushq e)) s = K w s ++ [e].
+Proof.
+  intros H. unfold K, supq_of. change (trace_of (upd w s (pushq e))) with (trace_of w).
+  rewrite get_upd_same. destruct (get w s); [|congruence]. simpl. apply app_assoc.
+Qed.
+
+(* ... and it is the LAST thing that supervisor knows *)
+Lemma notify_known_end links x w i a e s :
+  TInv links x w -> get w i = Some a -> c_link (a_cfg a) = Some s ->
+  a_armed a = true -> linkedp a ->
+  K (notify_supervisor w i e) s = K w s ++ [e] \/ blocked x (notify_supervisor w i e) s.
+Proof.
+  intros H Eg El Harm Hl.
+  destruct (CR _ _ _ _ _ (t_cs _ _ _ H i a s Eg El) Harm Hl) as [Es|B].
+  - destruct (notify_cases w i a e Eg) as [(s0 & b & E0 & Egs & Ep & ->)|[-> Hd]].
+    + rewrite Es in E0. injection E0 as <-. left. apply K_push_same. congruence.
+    + right. specialize (Hd s Es). unfold blocked. destruct (get w s) as [b|] eqn:Egs; auto.
+      right; left. apply (U7 _ _ _ _ (t_act _ _ _ H s b Egs)). exact Hd.
+  - right. destruct (notify_cases w i a e Eg) as [(s0 & b & _ & _ & _ & ->)|[-> _]]; [apply blocked_push|]; exact B.
+Qed.
+
 Lemma K_notify_incl w i e s y : In y (K w s) -> In y (K (notify_supervisor w i e) s).
 Proof.
   intros Hy. destruct (get w i) as [a|] eqn:Eg.
@@ -488,15 +565,26 @@ Proof.
   - unfold notify_supervisor. rewrite Eg. exact Hy.
 Qed.
 
+(* in h ++ e :: t, an element that no "bad" element precedes and that is not bad itself lies in h if e is bad *)
+Lemma split_before {A} (bad : A -> Prop) (l1 : list A) y l2 h e t :
+  l1 ++ y :: l2 = h ++ e :: t -> (forall z, In z l1 -> ~ bad z) -> ~ bad y -> bad e -> In y h.
+Proof.
+  revert h. induction l1 as [|z l1 IH]; intros h E Hl Hy He; destruct h as [|k h]; simpl in E.
+  - injection E as -> _. contradiction.
+  - injection E as -> _. left. reflexivity.
+  - injection E as -> _. exfalso. apply (Hl e); [left; reflexivity|exact He].
+  - injection E as -> E. right. apply IH; auto. intros z0 Hz. apply Hl. right. exact Hz.
+Qed.
+
 Lemma tinv_deq_enter links x w s a e t f :
-  TInv links x w -> get w s = Some a -> a_supq a = e :: t ->
+  TInv links x w -> get w s = Some a -> a_supq a = e :: t -> a_sig a = false -> x = None ->
   a_supq (f a) = t -> a_cfg (f a) = a_cfg a -> a_armed (f a) = a_armed a ->
   a_sup (f a) = a_sup a -> a_notify (f a) = a_notify a -> a_sig (f a) = a_sig a ->
   a_pc a = Idle -> (linkedp (f a) -> linkedp a) ->
   (UInv (trace_of w) x s a -> UInv (trace_of w) x s (f a)) ->
   TInv links x (emit (upd w s f) (TEnter s (Sup e))).
 Proof.
-  intros [h1 h2 h3 h4 h5] Eg Eq Fq Fc Fa Fs Fn Fsig Epc Fl FU.
+  intros [h1 h2 h3 h3' h4 h5] Eg Eq Hsig0 Hx0 Fq Fc Fa Fs Fn Fsig Epc Fl FU.
   set (w1 := upd w s f). set (ev := TEnter s (Sup e)).
   assert (Et : trace_of (emit w1 ev) = trace_of w ++ [ev]) by reflexivity.
   assert (HK : forall s', K (emit w1 ev) s' = K w s').
@@ -516,6 +604,24 @@ Proof.
     intros a0 E0. rewrite Eg in E0. injection E0 as <-. exact Fc.
   - rewrite Et, tf_go_app, h2. reflexivity.
   - rewrite Et, sf_go_app, h3. reflexivity.
+  - rewrite Et, stf_go_app, h3'. simpl. unfold stf_judge.
+    destruct (is_terminal e) eqn:Ht; simpl; auto.
+    destruct (onat_eqb (nth (about e) links None) (Some s)) eqn:Hl; simpl; auto.
+    destruct (post_start_ok (about e) (trace_of w)) eqn:Hp; simpl; auto.
+    apply onat_eqb_true in Hl. rewrite h1 in Hl. unfold link_of in Hl.
+    destruct (get w (about e)) as [ac|] eqn:Egc; [|discriminate].
+    destruct (CP1 _ _ _ _ _ (h5 _ ac s Egc Hl) Hp) as [(l1 & y & l2 & EK & Hn & Hab & Ho)|B].
+    + assert (EKs : K w s = hl s (trace_of w) ++ e :: t) by (unfold K, supq_of; rewrite Eg, Eq; reflexivity).
+      rewrite EKs in EK. symmetry in EK.
+      assert (Hy : In y (hl s (trace_of w))).
+      { apply (split_before (fun z => is_terminal z = true /\ about z = about e) l1 y l2 _ e t EK).
+        - intros z Hz [T A]. apply (Ho z Hz T A).
+        - intros [T _]. congruence.
+        - auto. }
+      apply Nat.ltb_lt. rewrite count_sup_hl. apply (filter_len_pos _ _ y Hy).
+      rewrite Hn, Hab, Nat.eqb_refl. reflexivity.
+    + exfalso. unfold blocked in B. rewrite Eg in B.
+      destruct B as [A|[A|[(r & f0 & p & A)|A]]]; congruence.
   - intros i b Eb. rewrite Et. change (get (upd w s f) i = Some b) in Eb.
     apply UInv_emit with (x := x); auto; try (intros [A|A]; discriminate).
     destruct (Nat.eq_dec s i) as [->|Hne].
@@ -529,10 +635,11 @@ Proof.
         rewrite Fc in El. repeat split; auto.
       - rewrite get_upd_other in Eg' by assumption. exists a'. repeat split; auto. }
     destruct Ec as (a0 & E & El0 & F1 & F2 & F3 & F4).
-    destruct (h5 c a0 s' E El0) as [r p1 p2]. constructor; unfold anyK, termK; rewrite ?HK.
+    destruct (h5 c a0 s' E El0) as [r p1 p2 p4]. constructor; unfold anyK, termK; rewrite ?HK.
     + intros A L. rewrite F3. rewrite F1 in A. destruct (r A (F2 L)) as [B|B]; auto.
     + rewrite Et, pso_app. simpl. rewrite orb_false_r. intros A. destruct (p1 A) as [B|B]; auto.
     + rewrite F1, F4. intros N D. destruct (p2 N D) as [B|B]; auto.
+    + rewrite F1. exact p4.
 Qed.
 
 (* ------------------------------------------------------------------ *)
@@ -625,8 +732,8 @@ Proof.
     intros Epc ks' Ek'. destruct F10 as [E|E]; rewrite E in Ek'; [eauto|discriminate].
   - intros c a s Ea El Ca. destruct (Ftc_fields p ks c a) as (_ & _ & F3 & F4 & _ & F6 & _ & _ & _ & _ & F11).
     eapply cinv_keep;
-      [exact Ca|apply (trace_of_pw _ _ _ Hpw)|intros y; rewrite HK; auto|apply Hb|congruence
-      | | |congruence|intros D; left; congruence].
+      [exact Ca|apply (trace_of_pw _ _ _ Hpw)|apply HK|apply Hb|congruence
+      | | |congruence|intros D; left; congruence|try (intros; discriminate); auto].
     + unfold linkedp. rewrite F4, F6. destruct (Ftc_fields p ks c a) as (_ & -> & _). auto.
     + intros A L. destruct F11 as [E|[Hin Es]]; [left; exact E|right].
       assert (Hne : ks <> []) by (intros ->; discriminate).
@@ -694,14 +801,15 @@ Proof.
       intros Epc ks' Ek'. destruct (F11 ks' Ek') as (ks & Ek & Himp). apply Himp. eapply u2; eauto.
   - intros c b s Eb El Cb. destruct (Nat.eq_dec c i) as [->|Hne].
     + destruct (Hi b Eb) as (_ & _ & F3 & F4 & F5 & _).
-      destruct Cb as [r p1 p2]. constructor; unfold anyK, termK; rewrite ?HK.
+      destruct Cb as [r p1 p2 p4]. constructor; unfold anyK, termK; rewrite ?HK.
       * rewrite F4. intros; discriminate.
       * rewrite (trace_of_pw _ _ _ Hpw). intros A. destruct (p1 A) as [B|B]; auto.
       * rewrite F5. intros N _. destruct (Hk b s Eb El N) as [B|B]; auto.
+      * intros _. left. exact F4.
     + destruct (Ho c b Hne Eb) as (_ & Fc & _ & F4 & F5 & F6 & F7 & _).
       eapply cinv_keep;
-        [exact Cb|apply (trace_of_pw _ _ _ Hpw)|intros y; rewrite HK; auto|apply Hb|congruence
-        | |intros _ _; left; exact F7|congruence|intros D; left; congruence].
+        [exact Cb|apply (trace_of_pw _ _ _ Hpw)|apply HK|apply Hb|congruence
+        | |intros _ _; left; exact F7|congruence|intros D; left; congruence|try (intros; discriminate); auto].
       unfold linkedp. rewrite F6, F4, Fc. auto.
 Qed.
 
@@ -724,7 +832,8 @@ Proof.
     + intros L. destruct (u9 L) as [A|[A|A]]; auto. rewrite (Hj A). auto.
     + intros L. destruct (u11 L) as [A|A]; auto. left. injection A as <-. exact Hp.
   - intros c b s Eb El Cb.
-    eapply cinv_keep; [exact Cb|reflexivity|auto|apply Hb|auto|auto|auto|auto|auto].
+    eapply cinv_keep; [exact Cb|reflexivity|auto|apply Hb|auto|auto|auto|auto|auto|].
+    intros E. injection E as <-. right. rewrite Eg in Eb. injection Eb as <-. exact Ha.
 Qed.
 
 Lemma upd_sup_none_id a : a_sup a = None -> upd_sup a None = a.
@@ -755,9 +864,10 @@ Qed.
 Lemma tinv_cleanup links w i a ev :
   TInv links (Some i) w -> get w i = Some a -> a_armed a = true ->
   (a_notify a = true -> exists e, ev = Some e /\ is_terminal e = true /\ about e = i) ->
+  (forall e, ev = Some e -> about e = i) ->
   TInv links (Some i) (cleanup w i ev).
 Proof.
-  intros H Eg Harm Hev. unfold cleanup. rewrite Eg, Harm. simpl.
+  intros H Eg Harm Hev Habt. unfold cleanup. rewrite Eg, Harm. simpl.
   set (w1 := upd w i (fun a0 => upd_status a0 5)).
   assert (H1 : TInv links (Some i) w1).
   { eapply tinv_upd_plain with (a := a); eauto.
@@ -770,7 +880,8 @@ Proof.
   destruct (sil_get w w2 i a S2 Eg) as (a2 & Eg2 & R2).
   set (w3 := match ev with Some e => notify_supervisor w2 i e | None => w2 end).
   assert (H3 : TInv links (Some i) w3).
-  { unfold w3. destruct ev; [apply tinv_notify|]; exact H2. }
+  { unfold w3. destruct ev as [e0|]; [apply tinv_notify|]; try exact H2.
+    intros _. rewrite (Habt e0 eq_refl). reflexivity. }
   (* what the supervisor knows once the report has been made *)
   assert (Hk3 : forall s, c_link (a_cfg a2) = Some s -> a_notify a2 = true ->
                 termK w3 s i \/ blocked (Some i) w3 s).
@@ -827,7 +938,7 @@ Proof.
     + intros L. destruct (u9 L) as [A|[A|A]]; auto. discriminate.
     + intros L. destruct (u11 L) as [A|A]; auto. discriminate.
   - intros c b s Eb El Cb.
-    eapply cinv_keep; [exact Cb|reflexivity|auto|apply blocked_tag; auto|auto|auto|auto|auto|auto].
+    eapply cinv_keep; [exact Cb|reflexivity|auto|apply blocked_tag; auto|auto|auto|auto|auto|auto|intros; discriminate].
 Qed.
 
 Lemma cleanup_done w i a ev :
@@ -850,7 +961,7 @@ Proof.
   destruct (cleanup_done w i a (Some e) Eg Harm) as (a' & Eg' & Epc' & Ha').
   apply (tinv_untag links _ i a'); auto.
   - apply tinv_emit with (x := Some i); auto; try (intros ? ? [A|A]; discriminate); try (intros; discriminate).
-    + eapply tinv_cleanup; eauto.
+    + eapply tinv_cleanup; eauto. intros e0 E0. injection E0 as <-. exact Ea.
     + intros j b [A|A] Eb; [discriminate|]. simpl in A. apply Nat.eqb_eq in A. subst j. auto.
   - rewrite trace_of_emit. apply pend_final. left. reflexivity.
 Qed.
@@ -863,7 +974,7 @@ Proof.
   destruct (cleanup_done w i a None Eg Harm) as (a' & Eg' & Epc' & Ha').
   apply (tinv_untag links _ i a'); auto.
   - apply tinv_emit with (x := Some i); auto; try (intros ? ? [A|A]; discriminate); try (intros; discriminate).
-    eapply tinv_cleanup; eauto. intros N. congruence.
+    eapply tinv_cleanup; eauto; [intros N; congruence|intros e0 E0; discriminate].
   - rewrite trace_of_emit. apply pend_final. right; left. reflexivity.
 Qed.
 
@@ -913,8 +1024,8 @@ Proof.
       { intros s0. apply (K_pw_same _ w _ s0 (pw_upd w i _)). intros j b Eb. cbv beta.
         destruct (Nat.eqb_spec i j) as [<-|]; auto. rewrite Eg in Eb. injection Eb as <-. exact Fq. }
       eapply cinv_keep;
-        [exact Ci|reflexivity|intros y; rewrite EK; auto| |simpl; congruence| |intros _ _; left; simpl; exact Fs
-        |simpl; congruence|simpl; intros D; left; congruence].
+        [exact Ci|reflexivity|apply EK| |simpl; congruence| |intros _ _; left; simpl; exact Fs
+        |simpl; congruence|simpl; intros D; left; congruence|try (intros; discriminate); auto].
       * apply blocked_upd with (a := a); [exact Eg|right; left; reflexivity|].
         unfold blocked. rewrite get_upd_same, Eg. simpl. auto.
       * unfold linkedp. simpl. rewrite Fn, Fc, Fpc. auto.
@@ -977,7 +1088,7 @@ Proof.
     apply tinv_emit with (x := None); auto; try (intros ? ? [A|A]; discriminate); try (intros; discriminate).
     eapply tinv_upd with (x := None) (a := a); [exact H|exact Eg|exact Fq|exact Fc|intros _; exact UG|left; reflexivity| |].
     + intros B. contradiction.
-    + intros s El Ci. destruct Ci as [r p1 p2].
+    + intros s El Ci. destruct Ci as [r p1 p2 p4].
       assert (EK : forall s0, K (upd w i G) s0 = K w s0).
       { intros s0. apply (K_pw_same _ w _ s0 (pw_upd w i _)). intros j b Eb. cbv beta.
         destruct (Nat.eqb_spec i j) as [<-|]; auto. rewrite Eg in Eb. injection Eb as <-. exact Fq. }
@@ -989,6 +1100,7 @@ Proof.
         -- left. rewrite Fs. rewrite Fc in L. apply (Hloc eq_refl L s El).
       * intros A. destruct (p1 A) as [B|B]; [left; exact B|right; apply Hb; exact B].
       * rewrite Fn, Fa. intros N D. destruct (p2 N D) as [B|B]; [left; exact B|right; apply Hb; exact B].
+      * rewrite Fa. exact p4.
   - (* post_start *)
     apply tinv_emit with (x := None); auto; try (intros ? ? [A|A]; discriminate); try (intros; discriminate).
     + apply Hupd; [exact Fq|discriminate].
@@ -1075,15 +1187,16 @@ Proof.
     destruct (Hpcs c b Eb) as (_ & _ & _ & G4).
     destruct (Nat.eqb_spec i c) as [<-|Hne].
     + rewrite Eg in Eb. injection Eb as <-. assert (s0 = s) by congruence. subst s0.
-      destruct Cb as [r p1 p2]. constructor; unfold anyK, termK; rewrite ?HK.
+      destruct Cb as [r p1 p2 p4]. constructor; unfold anyK, termK; rewrite ?HK.
       * intros _ _. left. exact F4.
       * rewrite (trace_of_pw _ _ _ Hpw). intros A. destruct (p1 A) as [B|B]; auto.
       * rewrite F3, Harm. intros; discriminate.
+      * rewrite F3. exact p4.
     + simpl in F4, F5.
       destruct G4 as [G4|(E & _)]; [|congruence].
       eapply cinv_keep;
-        [exact Cb|apply (trace_of_pw _ _ _ Hpw)|intros y; rewrite HK; auto|apply Hb|congruence
-        | |intros _ _; left; exact F4|congruence|intros D; left; congruence].
+        [exact Cb|apply (trace_of_pw _ _ _ Hpw)|apply HK|apply Hb|congruence
+        | |intros _ _; left; exact F4|congruence|intros D; left; congruence|try (intros; discriminate); auto].
       unfold linkedp. rewrite F5, Fc, G4. auto.
 Qed.
 
@@ -1222,7 +1335,7 @@ Proof.
            ++ intros; discriminate.
         -- unfold blocked. rewrite get_upd_same, Egx. simpl.
            intros [A|[A|[(r & f0 & p0 & A)|A]]]; auto; rewrite Epc in A; discriminate.
-        -- intros s Els Ci. destruct Ci as [r p1 p2].
+        -- intros s Els Ci. destruct Ci as [r p1 p2 p4].
            assert (Hloc : c_local (a_cfg a) = true) by (destruct (c_local (a_cfg a)); [reflexivity|congruence]).
            assert (EK : forall s0, K (upd wx i (fun a0 => upd_pc (upd_notify a0 true) Spawned)) s0 = K wx s0).
            { intros s0. apply (K_pw_same _ wx _ s0 (pw_upd wx i _)). intros j b _. cbv beta.
@@ -1235,6 +1348,7 @@ Proof.
            ++ intros _ _. destruct (r Harm) as [B|B]; auto. right. rewrite Epc. eauto.
            ++ intros A. destruct (p1 A) as [B|B]; auto.
            ++ rewrite Harm. intros; discriminate.
+           ++ exact p4.
       * intros j b [A|A] Eb; [|discriminate]. simpl in A. apply Nat.eqb_eq in A. subst j.
         rewrite get_upd_same, Egx in Eb. injection Eb as <-. reflexivity.
       * intros j b [A|A]; discriminate.
@@ -1264,7 +1378,7 @@ Proof.
       - reflexivity. }
     assert (Eg1 : get (upd w i g) i = Some (g a)) by (rewrite get_upd_same, Eg; reflexivity).
     apply tinv_emit with (x := None); auto; try (intros; discriminate).
-    + apply tinv_notify. exact H1.
+    + apply tinv_notify; [exact H1|intros; discriminate].
     + intros j b [A|A]; discriminate.
     + intros j b [A|A]; discriminate.
     + intros j b s A Eb El. simpl in A. apply Nat.eqb_eq in A. subst j.
@@ -1272,9 +1386,13 @@ Proof.
       { destruct (notify_get _ _ _ _ _ Eb) as (b1 & E1 & [ -> | -> ]); eauto. }
       destruct Eb1 as (b1 & E1 & Ec1). rewrite Eg1 in E1. injection E1 as <-.
       rewrite <- Ec1 in El.
-      destruct (notify_known links None (upd w i g) i (g a) (SStarted i) s H1 Eg1 El) as [B|B]; auto.
+      destruct (notify_known_end links None (upd w i g) i (g a) (SStarted i) s H1 Eg1 El) as [B|B]; auto.
       * left. exact Hn.
-      * left. exists (SStarted i). auto.
+      * left. exists (K (upd w i g) s), (SStarted i), []. split; [exact B|]. split; [reflexivity|]. split; [reflexivity|].
+        (* no terminal event about i is known yet: i is alive *)
+        intros z Hz Tz Az.
+        destruct (CP4 _ _ _ _ _ (t_cs _ _ _ H1 i (g a) s Eg1 El)) as [D|D]; [|unfold g in D; simpl in D; congruence|discriminate].
+        exists z. auto.
   - (* post_stop Ok *)
     apply (tinv_finish links wx i a); [apply HX; [reflexivity|reflexivity]|exact Egx|exact Harm|reflexivity|reflexivity].
 Qed.
@@ -1519,8 +1637,8 @@ Proof.
       { intros s0. apply (K_pw_same _ w _ s0 (pw_upd w i _)). intros j b _. cbv beta.
         destruct (Nat.eqb i j); reflexivity. }
       eapply cinv_keep;
-        [exact Ci|reflexivity|intros y; rewrite EK; auto| |simpl; auto| |intros _ _; left; reflexivity
-        |simpl; auto|simpl; intros D; left; exact D].
+        [exact Ci|reflexivity|apply EK| |simpl; auto| |intros _ _; left; reflexivity
+        |simpl; auto|simpl; intros D; left; exact D|try (intros; discriminate); auto].
       + apply blocked_upd with (a := a); [exact Eg|right; left; reflexivity|].
         unfold blocked. rewrite get_upd_same, Eg. simpl. auto.
       + unfold linkedp. simpl. auto. }
@@ -1542,6 +1660,8 @@ Proof.
   set (ev := if a_notify a then Some (STerminated i false (Some R_CANCELLED)) else None).
   assert (Hev : a_notify a = true -> exists e, ev = Some e /\ is_terminal e = true /\ about e = i).
   { intros N. unfold ev. rewrite N. eauto. }
+  assert (Habt : forall e, ev = Some e -> about e = i).
+  { intros e0. unfold ev. destruct (a_notify a); intros E0; [injection E0 as <-; reflexivity|discriminate]. }
   assert (HA : TInv links (Some i) (emit w (TAborted i))).
   { apply tinv_emit with (x := None); auto; try (intros; discriminate).
     - intros j b [A|A]; discriminate.
@@ -1605,8 +1725,8 @@ Proof.
   - apply tinv_req_stop. exact H.
   - apply tinv_req_kill. exact H.
   - apply tinv_req_drain. exact H.
-  - destruct H as [h1 h2 h3 h4 h5]. constructor; [exact h1|exact h2|exact h3|exact h4|].
-    intros c a s Eg El. destruct (h5 c a s Eg El) as [r p1 p2]. constructor; [exact r|exact p1|exact p2].
+  - destruct H as [h1 h2 h3 h3' h4 h5]. constructor; [exact h1|exact h2|exact h3|exact h3'|exact h4|].
+    intros c a s Eg El. destruct (h5 c a s Eg El) as [r p1 p2 p4]. constructor; [exact r|exact p1|exact p2|exact p4].
   - apply tinv_abort; assumption.
   - apply tinv_poll. exact H.
 Qed.
@@ -1626,12 +1746,17 @@ Proof.
   - intros c. unfold link_of, get, init. simpl. apply nth_map_link.
   - reflexivity.
   - reflexivity.
+  - reflexivity.
   - intros i a Eg. destruct (Hget i a Eg) as (c & ->).
     constructor; simpl; auto; try (intros; discriminate); try lia;
       try (intros [A|A]; discriminate); try (intros _ ks E; injection E as <-; reflexivity).
   - intros c a s Eg El. destruct (Hget c a Eg) as (c0 & ->).
+    assert (HK0 : K (init cfgs msgs) s = []).
+    { unfold K, supq_of. simpl. destruct (get (init cfgs msgs) s) as [b|] eqn:E; auto.
+      destruct (Hget s b E) as (c1 & ->). reflexivity. }
     constructor; simpl; try (intros; discriminate).
-    intros _ [N|[_ (r & f & p & E)]]; discriminate.
+    + intros _ [N|[_ (r & f & p & E)]]; discriminate.
+    + intros (y & Hy & _). rewrite HK0 in Hy. destruct Hy.
 Qed.
 
 (* ------------------------------------------------------------------ *)
@@ -1644,6 +1769,14 @@ Proof. exact (t_chk1 _ _ _ (tinv_run _ ls _ (inv_init cfgs msgs) (tinv_init cfgs
 Theorem sup_first_sound cfgs msgs ls :
   check_C03_sup_first (map c_link cfgs) (trace_of (run (init cfgs msgs) ls)) = true.
 Proof. exact (t_chk2 _ _ _ (tinv_run _ ls _ (inv_init cfgs msgs) (tinv_init cfgs msgs))). Qed.
+
+Theorem started_first_sound cfgs msgs ls :
+  check_C04_started_first (map c_link cfgs) (trace_of (run (init cfgs msgs) ls)) = true.
+Proof. apply (t_chk3 _ _ _ (tinv_run _ ls _ (inv_init cfgs msgs) (tinv_init cfgs msgs))). Qed.
+
+Theorem started_first_sound_dops cfgs msgs rounds fuel order ops :
+  check_C04_started_first (map c_link cfgs) (trace_of (run_dops rounds fuel order (init cfgs msgs) ops)) = true.
+Proof. rewrite run_dops_labels. apply started_first_sound. Qed.
 
 Theorem terminal_first_sound_dops cfgs msgs rounds fuel order ops :
   check_C04_terminal_first (map c_link cfgs)
